@@ -131,7 +131,7 @@ func main() {
 		if len(terms) == 0 {
 			return
 		}
-		run.WriteCasesV(fmt.Sprintf("cases_%d.v", start), []string{"Lib.Json", "Gql.Types", "Gql.Value", "Gql.Query", "Gql.Check"}, "", "mismatches_from_sparse", 0, terms)
+		run.WriteCasesV(fmt.Sprintf("cases_%d.v", start), []string{"Lib.Json", "Gql.Types", "Gql.Value", "Gql.Query", "Gql.Check", "Gql.CheckFlat"}, "", "mismatches01_from_sparse", 0, terms)
 		terms = nil
 		start = end
 	}
@@ -299,7 +299,15 @@ func main() {
 		if len(c.Data.ByOid) > 150 {
 			continue // oracle only: the model's evaluation (lists for heaps and pools) is quadratic in the size
 		}
-		terms = append(terms, fmt.Sprintf("(%d, %s)", idx, gqlgen.CoqCase(schemas, c.Data, q.Eff(), []string{gqlgen.CoqQuery(q)}, runs)))
+		// Flatten on the parsed query, walked along the schema the way the executor walks it
+		flat := "None"
+		if fb, err := gqlgen.Build(c.Spec, c.Modes[0]); err == nil {
+			if t, ok := gqlgen.FlatView(fb, text, q.Vars); ok {
+				flat = "(Some " + t + ")"
+				run.Hist("flatten-tree-compared")
+			}
+		}
+		terms = append(terms, fmt.Sprintf("(%d, (%s, %s))", idx, gqlgen.CoqCase(schemas, c.Data, q.Eff(), []string{gqlgen.CoqQuery(q)}, runs), flat))
 		if len(terms) >= shard {
 			flush(idx + 1)
 		}
